@@ -203,7 +203,8 @@ def run(ctx: Ctx, tier: str) -> Result:
             return True
         return lambda got: got[0] == "return" and got[1] in (True, False)
     table_rule(res, "C05.BUDGET", tb, rv, refb, "budget check false when cache size > max_variables, true when below")
-    if "_VariableCacheProvider__cache" in size_t and size_t.startswith("len("):
+    from .common import identity_cache_field
+    if identity_cache_field(ctx) in size_t and size_t.startswith("len("):
         res.ok("C05.BUDGET", {"size counted": size_t})
     else:
         res.fail(Finding("C05.BUDGET", cv.qname, size_t, cv.loc(), "the budget counts `%s`, not the number of cached variables" % size_t))
